@@ -21,6 +21,7 @@ type OpOptions struct {
 	Mutation             bool
 	ForceMutation        bool
 	ForceSubscription    bool // one root field of the Subscription type
+	VarNamedID           bool // a client variable literally called `id`, holding the id of an entity
 	VarDefaults          bool // client-declared default values relied upon
 	DirectiveVars        bool // @skip/@include(if: $v)
 	Directives           bool // @skip/@include with literal values
@@ -94,6 +95,12 @@ func (g *opGen) argString(f *ast.FieldDefinition) string {
 		}
 		if g.opt.Variables && g.rng.Intn(2) == 0 {
 			name := fmt.Sprintf("v%d", len(g.vars))
+			if _, isStr := val.(string); isStr && g.opt.VarNamedID && len(g.opt.IDs) > 0 && !g.feat["var_named_id"] && g.rng.Intn(2) == 0 {
+				name = "id"
+				val = g.opt.IDs[g.rng.Intn(len(g.opt.IDs))]
+				lit = fmt.Sprintf("%q", val)
+				g.feat["var_named_id"] = true
+			}
 			decl := "$" + name + ": " + a.Type.String()
 			if g.opt.VarDefaults && g.rng.Intn(2) == 0 {
 				decl += " = " + lit
@@ -369,4 +376,35 @@ func hasPlainID(sel string) bool {
 		depth += strings.Count(t, "{") - strings.Count(t, "}")
 	}
 	return false
+}
+
+// MultiNodeRootOperation: two aliased node(id:) roots on the same Node type, the first selecting all of its scalar
+// fields (possibly spread over several services), the second only `id`.
+func MultiNodeRootOperation(rng *rand.Rand, schema *ast.Schema, opt OpOptions) (GenOp, bool) {
+	var types []string
+	for t, ids := range opt.IDsByType {
+		if len(ids) > 0 && schema.Types[t] != nil {
+			types = append(types, t)
+		}
+	}
+	sort.Strings(types)
+	if len(types) == 0 {
+		return GenOp{}, false
+	}
+	t := types[rng.Intn(len(types))]
+	ids := opt.IDsByType[t]
+	var fields []string
+	for _, f := range schema.Types[t].Fields {
+		td := schema.Types[f.Type.Name()]
+		if f.Name == "id" || strings.HasPrefix(f.Name, "__") || isComposite(td) || len(f.Arguments) > 0 {
+			continue
+		}
+		fields = append(fields, f.Name)
+	}
+	if len(fields) < 2 {
+		return GenOp{}, false
+	}
+	a, b := ids[rng.Intn(len(ids))], ids[rng.Intn(len(ids))]
+	q := fmt.Sprintf("{ a: node(id: %q) { ... on %s { %s } } b: node(id: %q) { ... on %s { id } } }", a, t, strings.Join(fields, " "), b, t)
+	return GenOp{Query: q, Kind: "query", Features: []string{"multi_node_root"}}, true
 }
